@@ -1,4 +1,4 @@
-package main
+package c06
 
 // C06 — include is equivalent to pasting the included, fully resolved model.
 //
